@@ -17,7 +17,21 @@ TARGETS = {
     "C08": ("message_diff", "bytes-raw", 2_000_000, 300, "vcodec"),
     "C14": ("packetizer_chunks", "packetizer", 300_000, 500, "vcodec"),
     "C11": ("broker_abuse", "abuse", 200_000, 1400, "vbus"),
+    # text targets: the input is schema source text, the corpus the repository's own schema files
+    "C17": ("schema_total", "text", 150_000, 6000, "vschema"),
+    "C18": ("format_text", "text", 150_000, 6000, "vschema"),
 }
+TEXT_TARGETS = {"C17", "C18"}
+SCHEMA_DICT = ["import ", "struct ", "enum ", "service ", "const ", "newtype ", "fn ", "event ", "required ", "uuid = ", "version = ", "args = ", "ok = ", "err = ", "@", "//", "///", "//!", "#[rust(", "impl_copy", "option<", "vec<", "map<", "set<", "result<", "box<", "sender<", "receiver<", "-> ", "[u8; 4]", "= ;", "{}", "{\n}", "fallback", "::", "lifetime", "object_id", "service_id", "bytes", "value", "unit", "string", "\r\n", "\t", "[`", "`]", "](", "\"\\x41\"", "\u00e4", "\u200b"]
+
+def dict_escape(w):
+    out = ""
+    for b in w.encode("utf-8"):
+        if 32 <= b < 127 and b not in (34, 92):
+            out += chr(b)
+        else:
+            out += "\\x%02x" % b
+    return out
 
 def main():
     cid, seed = sys.argv[1], int(sys.argv[2])
@@ -38,15 +52,33 @@ def main():
     # seed corpus: a few deterministic tapes
     import random
     rng = random.Random(seed)
-    for i in range(64):
-        n = rng.choice([0, 1, 4, 16, 64, max_len // 2])
-        open(f"{work}/corpus/seed{i}", "wb").write(bytes(rng.randrange(256) for _ in range(n)))
+    extra_args = []
+    if cid in TEXT_TARGETS:
+        repo = os.environ.get("VERIF_REPO", "/repo")
+        n = 0
+        for d, _, files in os.walk(repo):
+            if "/target" in d or "/.git" in d:
+                continue
+            for f in sorted(files):
+                if f.endswith(".aldrin"):
+                    data = open(os.path.join(d, f), "rb").read()
+                    if len(data) <= max_len:
+                        open(f"{work}/corpus/repo{n}", "wb").write(data)
+                        n += 1
+        with open(f"{work}/dict", "w") as f:
+            for i, w in enumerate(SCHEMA_DICT):
+                f.write('kw%d="%s"\n' % (i, dict_escape(w)))
+        extra_args = [f"-dict={work}/dict", "-only_ascii=0"]
+    else:
+        for i in range(64):
+            n = rng.choice([0, 1, 4, 16, 64, max_len // 2])
+            open(f"{work}/corpus/seed{i}", "wb").write(bytes(rng.randrange(256) for _ in range(n)))
     jobs = int(os.environ.get("VERIF_FUZZ_JOBS", "8"))
     per = max(1, runs // jobs)
     # the run count is the budget; the time cap only keeps an overloaded machine from spending hours
     # (a capped campaign explored less, which the evidence shows; it is never a verdict)
     cap = int(os.environ.get("VERIF_FUZZ_MAX_S", "1500"))
-    cmd = [exe, f"-runs={per}", f"-max_total_time={cap}", f"-seed={seed}", f"-max_len={max_len}", "-len_control=0", f"-artifact_prefix={work}/artifacts/", f"-jobs={jobs}", f"-workers={jobs}", work + "/corpus"]
+    cmd = [exe, f"-runs={per}", f"-max_total_time={cap}", f"-seed={seed}", f"-max_len={max_len}", "-len_control=0", f"-artifact_prefix={work}/artifacts/", f"-jobs={jobs}", f"-workers={jobs}"] + extra_args + [work + "/corpus"]
     r = subprocess.run(cmd, cwd=work, env=dict(env, VERIF_ROOT=ROOT), stdout=subprocess.PIPE, stderr=subprocess.STDOUT, text=True)
     out = ""
     for i in range(jobs):
